@@ -22,12 +22,13 @@ Lemma trec_eqb_refl t : trec_eqb t t = true.
 Proof. unfold trec_eqb. now rewrite !String.eqb_refl, !strs_eqb_refl, Bool.eqb_reflx. Qed.
 
 Lemma leg_secret_auth_sec cl i s k : leg_secret_auth cl i s = Some k -> c_auth k <> AMNone ->
-  String.eqb (c_secret k) s = true.
+  nonempty s && String.eqb (c_secret k) s = true.
 Proof.
   unfold leg_secret_auth. destruct (nonempty i); [|discriminate].
   destruct (find_client cl i) as [k'|] eqn:F; [|discriminate].
   destruct (c_auth k') eqn:A; try discriminate; try (intros [= <-] N; congruence);
     (destruct (sec_ok cl i s) eqn:S; [|discriminate]); intros [= <-] _;
+    rewrite (sec_ok_nonempty _ _ _ S);
     apply sec_ok_found in S as (k2 & F2 & S); rewrite F in F2; injection F2 as <-; now apply String.eqb_eq.
 Qed.
 
@@ -38,13 +39,14 @@ Proof.
   intros W. unfold exch_auth. destruct r.
   - unfold auth_exch_prov, C15_spec.client_ok, cred_id.
     assert (B : forall i s, (if sec_ok cl i s then find_client cl i else None) = Some k ->
-              match find_client cl i with Some k0 => String.eqb (c_secret k0) s | None => false end = true /\
+              match find_client cl i with Some k0 => nonempty s && String.eqb (c_secret k0) s | None => false end = true /\
               c_id k = i /\ find_client cl i = Some k).
     { intros i s. destruct (sec_ok cl i s) eqn:S; [|discriminate]. intro F. rewrite F.
+      rewrite (sec_ok_nonempty _ _ _ S).
       apply sec_ok_found in S as (k' & F' & S). rewrite F in F'. injection F' as <-.
       split; [now apply String.eqb_eq|]. split; [now apply find_client_id in F|reflexivity]. }
     destruct c as [|i s|i s|i s f|[x|] f]; cbn [basic_pair cred_pair fst]; try apply B;
-      unfold sec_ok; now rewrite (wf_no_empty_id _ W).
+      unfold sec_ok; cbn; discriminate.
   - unfold auth_exch_leg. destruct (verify_client_leg cl c) as [k'|] eqn:V; [|discriminate].
     intro H. assert (K : k' = k /\ c_auth k <> AMNone).
     { destruct (c_auth k') eqn:A; try discriminate; injection H as <-; split; congruence. }
@@ -83,7 +85,7 @@ Definition success_result (g : store) (nx : nat) (k : client) (ssub asub : strin
   let sc := decided_scopes (policy g) scopes in
   let ssub := decided_subject (policy g) ssub in
   let t := TRec (c_id k) ssub asub sc aud (c_exp k) in
-  let acc n := if c_jwt k then XJwt (AT n) ssub else XOpaque (AT n) ssub in
+  let acc n := if c_jwt k then XJwt (AT n) ssub asub else XOpaque (AT n) ssub in
   match effective_type (policy g) req with
   | TAccess => Some ((add_at (nx + 1) t g, nx + 1), OExch TAccess (acc (nx + 1)) NoId false sc (Some t))
   | TRefresh => Some ((add_at_rt (nx + 1) (nx + 2) t g, nx + 2), OExch TRefresh (acc (nx + 2)) (RT (nx + 1)) true sc (Some t))
@@ -125,12 +127,12 @@ Proof.
 Qed.
 
 Lemma contained_access t n rt lv (j : bool) :
-  C15_spec.contained t TAccess (if j then XJwt (AT n) (tr_sub t) else XOpaque (AT n) (tr_sub t)) rt lv (Some t) = true.
-Proof. unfold C15_spec.contained. destruct j; now rewrite String.eqb_refl, trec_eqb_refl. Qed.
+  C15_spec.contained t TAccess (if j then XJwt (AT n) (tr_sub t) (tr_actor t) else XOpaque (AT n) (tr_sub t)) rt lv (Some t) = true.
+Proof. unfold C15_spec.contained. destruct j; now rewrite !String.eqb_refl, trec_eqb_refl. Qed.
 
 Lemma contained_refresh t n m (j : bool) :
-  C15_spec.contained t TRefresh (if j then XJwt (AT n) (tr_sub t) else XOpaque (AT n) (tr_sub t)) (RT m) true (Some t) = true.
-Proof. unfold C15_spec.contained. destruct j; now rewrite String.eqb_refl, trec_eqb_refl. Qed.
+  C15_spec.contained t TRefresh (if j then XJwt (AT n) (tr_sub t) (tr_actor t) else XOpaque (AT n) (tr_sub t)) (RT m) true (Some t) = true.
+Proof. unfold C15_spec.contained. destruct j; now rewrite !String.eqb_refl, trec_eqb_refl. Qed.
 
 Lemma contained_id t rt lv sto :
   C15_spec.contained t TId (XIdTok (tr_sub t) (tr_client t)) rt lv sto = true.
@@ -144,7 +146,7 @@ Lemma declared_is_contained cl r g nx c subj styp actor req scopes aud s' i x rt
   sc = decided_scopes (policy g) scopes /\
   i = effective_type (policy g) req /\
   C15_spec.contained want i x rt lv sto = true /\
-  (forall t, sto = Some t -> t = want /\ exists n, (x = XOpaque (AT n) (tr_sub want) \/ x = XJwt (AT n) (tr_sub want)) /\
+  (forall t, sto = Some t -> t = want /\ exists n, (x = XOpaque (AT n) (tr_sub want) \/ x = XJwt (AT n) (tr_sub want) (tr_actor want)) /\
                                    find_tok n (toks (fst s')) = Some t) /\
   (forall m, rt = RT m -> find_rt m (rtoks (fst s')) <> None).
 Proof.
@@ -157,6 +159,7 @@ Proof.
   unfold success_result in SR. cbv zeta in SR.
   set (t := TRec (c_id k) (decided_subject (policy g) ssub) asub (decided_scopes (policy g) scopes) aud (c_exp k)) in *.
   change (decided_subject (policy g) ssub) with (tr_sub t) in SR. change (c_id k) with (tr_client t) in SR.
+  change asub with (tr_actor t) in SR.
   destruct (effective_type (policy g) req); try discriminate; injection SR as <- <- <- <- <- <- <-;
     (split; [reflexivity|]); (split; [reflexivity|]).
   - split; [apply contained_access|]. split; [|intros m [=]].
